@@ -339,7 +339,8 @@ PartialDiscardMode(t, mode) == t.k = "discard-snap" /\ mode \in {"op:remove-snap
 
 IdleChg == [phase |-> "idle", kind |-> "none", op |-> [kind |-> "none"], sup |-> NoSup, chain |-> <<>>, pc |-> 1,
             done |-> {}, loc |-> <<>>, pre |-> [rec |-> EmptyRec, world |-> EmptyWorld], disc |-> {},
-            status |-> "none", now |-> 0, retain |-> 0, boot |-> {}, tainted |-> FALSE]
+            status |-> "none", now |-> 0, retain |-> 0, boot |-> {}, tainted |-> FALSE,
+            fail |-> [idx |-> 0, mode |-> ""]]
 
 Init ==
     /\ rec = EmptyRec
@@ -354,7 +355,8 @@ StartChange(op, now) ==
     chg' = [phase |-> "do", kind |-> op.kind, op |-> op, sup |-> SupFor(rec, op), chain |-> ChainFor(rec, env, op),
             pc |-> 1, done |-> {}, loc |-> [i \in 1..Len(ChainFor(rec, env, op)) |-> NoLoc],
             pre |-> [rec |-> rec, world |-> world], disc |-> {}, status |-> "doing", now |-> now,
-            retain |-> Retain(env), boot |-> IF env.kernel THEN env.boot ELSE {}, tainted |-> chg.tainted]
+            retain |-> Retain(env), boot |-> IF env.kernel THEN env.boot ELSE {}, tainted |-> chg.tainted,
+            fail |-> [idx |-> 0, mode |-> ""]]
 
 Request(op) ==
     /\ Idle /\ clock < MaxOps
@@ -380,7 +382,7 @@ StepFail(mode) ==
     /\ LET t == chg.chain[chg.pc]
            res == FailTask(rec, world, chg.sup, t, mode) IN
        /\ rec' = res.rec /\ world' = res.world
-       /\ chg' = [chg EXCEPT !.phase = "undo", !.status = "undoing",
+       /\ chg' = [chg EXCEPT !.phase = "undo", !.status = "undoing", !.fail = [idx |-> chg.pc, mode |-> mode],
                              !.tainted = @ \/ PartialDiscardMode(t, mode)]
     /\ UNCHANGED <<env, clock>>
 
@@ -425,17 +427,21 @@ McOps ==
     \cup {MkOp("remove", r, PlainAttr, FALSE) : r \in 0..MaxRev}
     \cup {MkOp("enable", 0, PlainAttr, FALSE), MkOp("disable", 0, PlainAttr, FALSE)}
 
+\* the task at pc fails: on entry, or (OpFaults) inside any of its backend operations
+AnyFail == \E mode \in {"entry"} \cup (IF OpFaults /\ chg.phase = "do" /\ chg.pc <= Len(chg.chain)
+                                          THEN OpModes(rec, chg.chain[chg.pc]) ELSE {}) : StepFail(mode)
+InhibitNow == clock < MaxOps /\ Inhibit(clock + 1) /\ clock' = clock + 1 /\ UNCHANGED <<world, env>>
+
 Next ==
     \/ \E op \in McOps : Request(op)
     \/ StepDo
-    \/ \E mode \in {"entry"} \cup (IF OpFaults /\ chg.phase = "do" /\ chg.pc <= Len(chg.chain)
-                                      THEN OpModes(rec, chg.chain[chg.pc]) ELSE {}) : StepFail(mode)
+    \/ AnyFail
     \/ Finish
     \/ StepUndo
     \/ SettleError
     \/ \E v \in RetainOpts : SetRetain(v)
     \/ \E v \in CfgOpts : SetConfig(v)
-    \/ (clock < MaxOps /\ Inhibit(clock + 1) /\ clock' = clock + 1 /\ UNCHANGED <<world, env>>)
+    \/ InhibitNow
     \/ \E b \in BootOpts : SetBoot(b)
 
 Spec == Init /\ [][Next]_vars
